@@ -2,9 +2,9 @@
 from reg._common import COMMON_ASSUME
 
 ENTRY = {
-    'lean_files': ['Tables/C19.lean', 'Props/C15.lean', 'Props/C15Algebraic.lean'],
+    'lean_files': ['Tables/SrcPyAlgebraic.lean', 'Tables/C19.lean', 'Props/C15.lean', 'Props/C15Algebraic.lean'],
     'lemma_files': ['Lemmas/AlgebraicSound.lean', 'Lemmas/Resultant.lean', 'Model/AlgebraicAssembly.lean', 'Lemmas/Algebraic.lean', 'Model/Algebraic.lean', 'Model/Curve.lean', 'Model/Basic.lean'],
-    'extractors': ['extract_algebraic.py'],
+    'extractors': ['extract_algebraic.py', 'translate_py.py'],
     'script': 'props/c15.py',
     'rule': 'cases = (ordered pair of planar control nets, presentation (each curve exactly degree-elevated 0..2 times, both '
             'nets scaled by a common odd integer so that every presented coordinate is a binary64 number), route '
